@@ -14,7 +14,7 @@
     thread interleavings; contract assumed of fs.Writer: a failed Close stores
     nothing. *)
 From Perf Require Import Base.Bytes Model.Words Model.Query Model.StoreFmt Model.Upload Model.Ids
-     Proofs.Upload Proofs.Ids.
+     Model.IdsHist Proofs.Upload Proofs.Ids Proofs.IdsHist.
 
 Section C20.
 Variables result rec : Type.
@@ -194,6 +194,37 @@ Theorem C20_id_form : forall u,
     /\ d <> [] /\ s <> [] /\ forallb is_digit d = true /\ forallb is_digit s = true.
 Proof. exact id_form. Qed.
 Print Assumptions C20_id_form.
+
+(** histories of uploads on one database (Model/IdsHist.v): NewUpload at ANY
+    clock readings - also on an earlier day than the newest upload, a day that
+    already has upload .1 - mixed with uploads whose explicit ID appears out of
+    order, each committed or aborted: the IDs NewUpload hands out are pairwise
+    different and were not in the table before *)
+Theorem C20_history_new_ids_fresh : forall ops s,
+  NoDup (h_table s) ->
+  NoDup (new_ids s ops) /\ (forall u, In u (new_ids s ops) -> ~ In u (h_table s)).
+Proof. exact history_new_ids_fresh. Qed.
+Print Assumptions C20_history_new_ids_fresh.
+
+(** ... and whatever happens later (failed, aborted, committed uploads), the
+    listing keeps showing every committed upload with all its records *)
+Theorem C20_history_keeps_committed : forall ops s r,
+  In r (hlisting s) -> In r (hlisting (hfinal s ops)).
+Proof. exact history_keeps_committed. Qed.
+Print Assumptions C20_history_keeps_committed.
+
+Theorem C20_history_listing_one_per_id : forall ops,
+  NoDup (map fst (h_recs (hfinal h0 ops))).
+Proof. exact history_listing_one_per_id. Qed.
+Print Assumptions C20_history_listing_one_per_id.
+
+(** the clock steps back over midnight onto a day that has upload .1: the call
+    fails, the ID is not handed out again, the committed upload stays listed *)
+Example C20_example_history :
+  let ops := [HNew 20261001 2 true; HNew 20260930 1 true; HNew 20261001 1 false; HNew 20260930 3 true]%N in
+  map snd (hrun h0 ops) = [Some (20261001, 1); Some (20260930, 1); Some (20261001, 2); None]%N
+  /\ hlisting (hfinal h0 ops) = [((20261001, 1), 2); ((20260930, 1), 1)]%N.
+Proof. split; reflexivity. Qed.
 
 Example C20_example_concurrent :
   (* two allocators read before either inserts: the second insert is refused *)
